@@ -35,12 +35,13 @@ import (
 func init() {
 	Registry["C13"] = Entry{
 		Run: runC13,
-		Explanation: "Decides five structural necessary conditions of 'final outputs are materialised faithfully under outs/' (thin claim): " +
+		Explanation: "Decides structural necessary conditions of 'final outputs are materialised faithfully under outs/' (thin claim): " +
 			"M1 every write into the buffer that becomes the rewritten _outs is JSON by construction (constant punctuation, json.RawMessage-typed bytes, json.Marshal/strconv results); raw strings only on paths that end in a non-nil error, " +
 			"M2 every path through a writer (moveOutFiles, moveOutFile, moveOutDir, moveOutArrayDir, copyOutSymlink and their helpers) that can return a nil error has written a value, " +
 			"M3 in every loop that writes separators no iteration completes without writing its element, " +
 			"M5 the destination of every os.Rename/os.Symlink into outs/ derives from GetOutFilename() of the member being moved, " +
 			"M6 the duplicate output-name rejection of StructType.compile sees every member with a non-empty out filename (lookup, then error or insertion, on every such iteration) and the struct synthesised from each callable's outputs is compiled by it. " +
+			"M7 a relative link target is joined with the directory of the very link it was read from; M8 a missing source is recorded as null only after the destination under outs/ was looked at. " +
 			"NOT decided: file contents, which files exist, symlink arithmetic (relative paths), that the hand-assembled JSON is valid beyond these conditions, display output.",
 		Assumptions: append([]string{
 			"values of static type json.RawMessage hold JSON text (they come from json.Unmarshal into RawMessage-based containers or from encoders); a conversion of a string to json.RawMessage is reported",
